@@ -191,6 +191,11 @@ def check(case):
         same(back, "from_str(str(bv))")
         need(back == bv, "BeatValues round trip not equal")
         need(str(back) == text, "second serialisation differs")
+        # a parsed list belongs to the caller: editing it in place must not change what the same string parses to next
+        back.append(BeatValue(Beat(999), D("9")))
+        if len(back) > 1:
+            del back[0]
+        same(BeatValues.from_str(text), "from_str of the same string after the first result was edited in place")
         # decoration around rows
         rows = text.split(",\n") if text else []
         deco = case["deco"]
@@ -227,6 +232,27 @@ def check(case):
         sm = SMSimfile(string="")
         fill(sm)
         carriers.append(("sm", TimingData(sm)))
+        # FREEZES is an alias of STOPS on SM simfiles only, and only when the STOPS key is absent
+        decoy = "7.000=7.000"
+        if which == "STOPS":
+            sm_alias = SMSimfile(string="")
+            fill(sm_alias)
+            sm_alias["FREEZES"] = sm_alias.pop("STOPS")
+            carriers.append(("sm-freezes-alias", TimingData(sm_alias)))
+            sm_both = SMSimfile(string="")
+            fill(sm_both)
+            sm_both["FREEZES"] = decoy
+            carriers.append(("sm-stops-and-stale-freezes", TimingData(sm_both)))
+        else:
+            sm_empty = SMSimfile(string="")
+            fill(sm_empty)
+            sm_empty["STOPS"] = ""
+            sm_empty["FREEZES"] = decoy
+            carriers.append(("sm-empty-stops-and-stale-freezes", TimingData(sm_empty)))
+            ssc_decoy = SSCSimfile(string="#VERSION:0.83;")
+            fill(ssc_decoy)
+            ssc_decoy["FREEZES"] = decoy
+            carriers.append(("ssc-with-freezes-key", TimingData(ssc_decoy)))
         sm2 = SMSimfile(string=str(sm))
         carriers.append(("sm-reloaded", TimingData(sm2)))
         ssc = SSCSimfile(string="#VERSION:0.83;")
